@@ -65,7 +65,7 @@ func altGroup(class string) string {
 }
 
 func protoRuns(name string) int {
-	q := map[string]int{"plain-1024": 3, "plain-1025": 2, "plain-1026": 1, "plain-1027": 1, "plain-1028": 1, "plain-1029": 1, "plain-1030": 1, "plain-1031": 1, "plain-1536": 3, "plain-2041": 4, "plain-2048": 3, "plain-3072": 2, "plain-4096": 1}[name]
+	q := map[string]int{"plain-1024": 3, "plain-1025": 2, "plain-1026": 1, "plain-1027": 1, "plain-1028": 1, "plain-1029": 1, "plain-1030": 1, "plain-1031": 1, "plain-1536": 3, "plain-2041": 4, "plain-2048": 3, "plain-2048-e7": 1, "plain-2048-e11": 1, "plain-2048-e65539": 1, "plain-3072": 2, "plain-4096": 1}[name]
 	return lib.Scale(q, 100*q)
 }
 
